@@ -43,6 +43,31 @@ def step (_ : Unit) (toks : List String) : Unit × String :=
       | .eoi => ((), "err eoi")
       | .fail => ((), "err other")
     | none => ((), "bad-op")
+  | ["bfdec", h] =>
+    -- the block-fetch decoder model against the real one (both stacks) on arbitrary bytes
+    match Tok.unhex h with
+    | some bs =>
+      let showPt : Pt → String := fun p => match p with
+        | .origin => "origin"
+        | .specific s hsh => toString s ++ ":" ++ Tok.hex hsh
+      match bfDec bs with
+      | .ok (.requestRange a b) pos => ((), "ok range " ++ showPt a ++ " " ++ showPt b ++ " " ++ toString pos)
+      | .ok .clientDone pos => ((), "ok clientdone " ++ toString pos)
+      | .ok .startBatch pos => ((), "ok startbatch " ++ toString pos)
+      | .ok .noBlocks pos => ((), "ok noblocks " ++ toString pos)
+      | .ok (.block body) pos => ((), "ok block " ++ Tok.hex body ++ " " ++ toString pos)
+      | .ok .batchDone pos => ((), "ok batchdone " ++ toString pos)
+      | .eoi => ((), "err eoi")
+      | .fail => ((), "err other")
+    | none => ((), "bad-op")
+  | ["bfenc", h] =>
+    -- re-encode what the model decodes (the harness does the same with the real codec)
+    match Tok.unhex h with
+    | some bs =>
+      match bfDec bs with
+      | .ok m _ => ((), "ok " ++ Tok.hex (bfEnc m))
+      | _ => ((), "err decode")
+    | none => ((), "bad-op")
   | ["kenc", k, c] =>
     match k.toNat?, c.toNat? with
     | some k, some c =>
